@@ -44,7 +44,7 @@ type lifeline struct {
 	model    []logRec     // records of all completed flushes, in order
 	fedEver  map[int]bool // inputs ever handed to the node
 	durable  map[int]bool // inputs with a flushed log entry
-	commits  int          // completed commit callbacks
+	commits  int          // completed commits = blocks the harness's block store persisted (OnCommit returned true)
 	lastEnts []walRec     // entries the latest run had to replay
 }
 
@@ -128,7 +128,7 @@ func (l *lifeline) absorb(name string, r *rec, replayed []walRec) {
 	for _, idx := range r.fed {
 		l.fedEver[idx] = true
 	}
-	l.commits += len(r.commits)
+	l.commits += r.persistedCommits()
 }
 
 func (ck *checker) lifeCtx(l *lifeline, extra ...*rec) func() string {
@@ -224,7 +224,18 @@ func (ck *checker) recoverRun(l *lifeline, image string, order []int, lost int, 
 	// (1) nothing broadcast after recovery conflicts with what was broadcast before
 	ck.noConflict(append(append([]*rec{}, l.runs...), rc), append(append([]string{}, l.names...), name), ctx)
 
-	// (3) replay delivers exactly the flushed entries of unpruned heights, in order
+	// (P) the log of a height is pruned only once the commit of that height has completed: a durable
+	// prune record for a height >= resumeH removes inputs the node has to process again
+	for _, m := range l.model {
+		if m.prune && m.height >= resumeH {
+			ck.fail("pruned-unfinished-height", fmt.Sprintf("the log was durably pruned up to height %d, but the last height whose commit completed (block persisted) is %d: the recorded inputs of height %d cannot be processed again after the restart\n%s",
+				m.height, resumeH-1, resumeH, ctx()))
+		}
+	}
+
+	// (3) the log after restart is what the store contract says (flushed records, prunes applied);
+	// replay delivers exactly the flushed entries of the heights whose commit has not completed, in
+	// order (height ascending, append order) - whatever the driver asked the store to prune
 	dur := durableEntries(l.plain())
 	var wantLoaded, wantReplay []string
 	var replayEntries []walRec
@@ -245,6 +256,8 @@ func (ck *checker) recoverRun(l *lifeline, image string, order []int, lost int, 
 		}
 		for _, w := range dur {
 			wantLoaded = append(wantLoaded, w.str)
+		}
+		for _, w := range durableEntries(withoutPrunes(l.plain())) {
 			k := key{w.str, w.call, w.input}
 			var seg []string
 			if len(pool[k]) > 0 {
@@ -258,7 +271,8 @@ func (ck *checker) recoverRun(l *lifeline, image string, order []int, lost int, 
 			}
 		}
 	}
-	if rc.crashed && len(rc.loaded) < len(wantLoaded) { // killed while replaying
+	cut := rc.cut()
+	if cut && len(rc.loaded) < len(wantLoaded) { // killed / stopped while replaying
 		wantLoaded = wantLoaded[:len(rc.loaded)]
 	}
 	if strings.Join(rc.loaded, "\n") != strings.Join(wantLoaded, "\n") {
@@ -273,7 +287,7 @@ func (ck *checker) recoverRun(l *lifeline, image string, order []int, lost int, 
 		}
 	}
 	nRep := len(wantReplay)
-	if rc.crashed && len(gotReplay) < nRep {
+	if cut && len(gotReplay) < nRep {
 		nRep = len(gotReplay)
 	}
 	if strings.Join(gotReplay, "\n") != strings.Join(wantReplay[:nRep], "\n") {
@@ -336,13 +350,13 @@ func (ck *checker) recoverRun(l *lifeline, image string, order []int, lost int, 
 	}
 	got := visOf(rc)
 	want := ref1.vis
-	if rc.crashed && len(got) < len(want) {
+	if cut && len(got) < len(want) {
 		want = want[:len(got)]
 	}
 	if strings.Join(got, "\n") != strings.Join(want, "\n") {
 		ck.fail("recovered-vs-reference", fmt.Sprintf("broadcasts/commits after recovery differ from the reference run on the durable inputs: %s\n%s", firstDiff(got, want), ctx()))
 	}
-	if !rc.crashed && (crash == nil || !crash.graceful) {
+	if !cut && (crash == nil || !crash.graceful) {
 		pa, pb := probe(env, rc.sm, rc.app), probe(env, ref1.sm, ref1.app)
 		if strings.Join(pa, "\n") != strings.Join(pb, "\n") {
 			ck.fail("final-state", fmt.Sprintf("final state after recovery differs from the reference run: %s\n%s", firstDiff(pa, pb), ctx()))
@@ -416,14 +430,18 @@ func (ck *checker) trial(p point, redeliver func(idx int) bool, second func(reco
 	defer os.RemoveAll(d)
 	defer os.RemoveAll(img)
 
-	// the killed run must be the uncrashed run up to the kill (the harness owns the schedule)
+	// the stopped run must be the unstopped run up to the stop (the harness owns the schedule); after
+	// an orderly stop the process still does what is left of the current call, which is a prefix too
 	if !spec.graceful {
 		want := spec.k - 1
-		if spec.after {
+		if spec.after || spec.kind == stopHold || spec.kind == stopFail {
 			want = spec.k
 		}
-		if !cr.crashed || len(cr.effects) != want {
+		if spec.kind == stopKill && (!cr.crashed || len(cr.effects) != want) {
 			stats.HarnessError("kill point not reached: %s, effects %d crashed %v", &spec, len(cr.effects), cr.crashed)
+		}
+		if spec.kind != stopKill && (!cr.stopped || cr.crashed || len(cr.effects) < want) {
+			stats.HarnessError("stop point not reached: %s, effects %d stopped %v", &spec, len(cr.effects), cr.stopped)
 		}
 	}
 	for i, e := range cr.effects {
@@ -455,6 +473,23 @@ func (ck *checker) trial(p point, redeliver func(idx int) bool, second func(reco
 	if spec.graceful {
 		ck.c.Label("orderly-stop")
 	}
+	ck.c.Label("stop:" + spec.label())
+	ck.c.Info("experiments-stop:" + spec.label())
+	if !spec.graceful && spec.kind != stopKill {
+		unp := false
+		for _, cm := range cr.commits {
+			unp = unp || !cm.persisted
+		}
+		if unp {
+			ck.c.Label("stop-left-decided-block-unpersisted")
+			if len(rc.commits) > 0 && rc.commits[0].h == cr.commits[len(cr.commits)-1].h {
+				ck.c.Label("unpersisted-height-committed-again-after-restart")
+			}
+		}
+		if cr.runErr != nil {
+			ck.c.Label("run-returned-error")
+		}
+	}
 	if second == nil {
 		return
 	}
@@ -464,8 +499,8 @@ func (ck *checker) trial(p point, redeliver func(idx int) bool, second func(reco
 	}
 	// the recovering process is killed as well
 	rc2, ents2 := ck.recoverRun(l2, img2, next, lost, spec2)
-	if !rc2.crashed {
-		stats.HarnessError("second kill point not reached: %s of %d", spec2, len(rc.effects))
+	if !rc2.cut() {
+		stats.HarnessError("second stop point not reached: %s of %d", spec2, len(rc.effects))
 	}
 	for i, e := range rc2.effects {
 		if i >= len(rc.effects) || rc.effects[i].desc != e.desc {
@@ -478,7 +513,20 @@ func (ck *checker) trial(p point, redeliver func(idx int) bool, second func(reco
 	ck.recoverRun(l2, img2+".img", next2, lost2, nil)
 	defer os.RemoveAll(img2 + ".img.img")
 	ck.c.Label("second-crash")
+	ck.c.Label("second-stop:" + spec2.label())
+	ck.c.Info("experiments-second-stop:" + spec2.label())
 	if inReplay {
 		ck.c.NonTrivial("second-crash-during-replay")
 	}
+}
+
+// withoutPrunes drops the prune records: what the log would hold had nothing ever been pruned.
+func withoutPrunes(recs []walRec) []walRec {
+	var out []walRec
+	for _, x := range recs {
+		if !x.prune {
+			out = append(out, x)
+		}
+	}
+	return out
 }
